@@ -654,7 +654,10 @@ func (w *world) envOp() {
 		case r < 19:
 			ok = w.opRelabelNamespace()
 		default:
-			if w.inc.started {
+			// (in the controller process a reload request always follows a pool reconcile that
+			// called SetPools - PoolReconciler.ForceReload, or a handler returning ReprocessAll -
+			// so the environment does not invent one before this incarnation has its pools)
+			if w.inc.started && w.inc.poolHandlerCalls > 0 {
 				w.inc.workers[0].q.Add(reloadKey)
 				w.logf("ENV forced full re-sync")
 				ok = true
